@@ -26,6 +26,9 @@ strings x positions, shape x text are crossed in full):
   F8 XML Char boundaries                   each of U+0009 U+000A U+000D U+0020 U+007F U+0085 U+D7FF U+E000 U+FFFD U+10000
                                            U+10FFFF x position {alone, middle, first, last, twice} x place {plain value,
                                            android: value, text, value+text, two values + child text} x pool
+  F9 attribute layout                      attributeStart {20, 24, 28} x attributeSize {20, 24, 28} x filler {0x00, 0xA5}
+                                           x every ordered selection of 0..3 of six attribute variants on the root (+ a
+                                           child with two attributes and text) x pool (x resource map for pairs)
   F7 id/class/style indices                ordered selections of <= 3 of {android:id, class, style, plain} with the
                                            idIndex/classIndex/styleIndex header fields set x pool x resource map x 2 shapes
 Caps: <= 4 elements, <= 4 attributes per document, depth <= 3.
@@ -407,7 +410,43 @@ def fam_chars(ctx, cp):
                                                   "pos": pname, "where": where})
 
 
-FAMILIES = {"F8": fam_chars, "F7": fam_index, "F1": fam_shapes, "F2": fam_pairs, "F2b": fam_cross, "F6": fam_variant_shapes, "F3": fam_strings,
+LAYOUT_SIZES = [20, 24, 28]
+LAYOUT_VARIANTS = [("plain", 0x03, "v"), ("android", 0x03, ""), ("plain", 0x10, 0x80000000), ("android", 0x01, 0x01040000),
+                   ("custom", 0x05, 0x00000101), ("plain", 0x12, 0xFFFFFFFF)]
+
+
+def fam_layout(ctx, astart, asize):
+    """F9: attributeStart x attributeSize x filler; elements with 0..3 attributes (every ordered selection of the six
+    reduced variants on the root, a fixed pair + text on a child)."""
+    sels = [()]
+    for n in (1, 2, 3):
+        sels += list(itertools.product(range(len(LAYOUT_VARIANTS)), repeat=n))
+    fills = (0,) if (astart, asize) == (20, 20) else (0, 0xA5)
+    for sel in sels:
+        for fill, utf8, rm in itertools.product(fills, (False, True), ("off", "on")):
+            if rm == "on" and len(sel) != 2:
+                continue
+            elems = skeleton(SHAPES[1], ["a", "b1"])
+            avail = apply_ns("android+app-root", elems, SHAPES[1])
+            a0, a1 = avail[id(elems[0])], avail[id(elems[1])]
+            for slot, vi in enumerate(sel):
+                v = LAYOUT_VARIANTS[vi]
+                elems[0]["attrs"].append(make_attr(v, slot, a0[v[0]], rm))
+            elems[1]["attrs"].append(make_attr(("android", 0x03, "w"), 0, a1["android"], rm))
+            elems[1]["attrs"].append(make_attr(("plain", 0x11, 0xAB), 1, None, rm))
+            elems[1]["kids"].append({"text": "t"})
+            item = finish(elems, utf8, rm == "on", {"fam": "F9", "ns": "android+app-root", "resmap": rm,
+                                                    "layout": [astart, asize, fill]})
+            if astart != 20:
+                item["doc"]["attrstart"] = astart
+            if asize != 20:
+                item["doc"]["attrsize"] = asize
+            if fill:
+                item["doc"]["attrfill"] = fill
+            yield item
+
+
+FAMILIES = {"F9": fam_layout, "F8": fam_chars, "F7": fam_index, "F1": fam_shapes, "F2": fam_pairs, "F2b": fam_cross, "F6": fam_variant_shapes, "F3": fam_strings,
             "F4": fam_text, "F5": fam_resmap}
 
 
@@ -426,6 +465,7 @@ def shards(ctx):
     s += [("F5", i) for i in range(len(KNOWN_RID) + 3)]
     s += [("F7", i) for i in range(4)]
     s += [("F8", cp) for cp in XML_BOUNDARY]
+    s += [("F9", a, b) for a in LAYOUT_SIZES for b in LAYOUT_SIZES]
     return s
 
 
@@ -436,6 +476,8 @@ def space(ctx):
             "attribute_variants": len(variants()),
             "strings": sorted(STRINGS) + (sorted(STRINGS_THOROUGH) if ctx.thorough else []),
             "xml_char_boundaries(F8)": ["U+%04X" % c for c in XML_BOUNDARY], "char_positions(F8)": list(CHAR_POSITIONS),
+            "attribute_layout(F9)": {"attributeStart": LAYOUT_SIZES, "attributeSize": LAYOUT_SIZES, "filler": ["0x00", "0xA5"],
+                                     "attributes_on_root": "0..3 (ordered selections of 6 variants)"},
             "pools": ["utf16", "utf8"], "pool_entry_order(F1,F5)": POOLORDERS, "resource_map": ["off", "known ids + matching names", "unknown ids"],
             "caps": {"elements": 4, "depth": 3, "attributes_per_document": 4},
             "product": "NOT the full cartesian product: union of the exhaustive sub-products F1..F6 (module docstring); "
@@ -597,6 +639,13 @@ def check_doc(ax, acc, item):
                     break
     acc.case(nontrivial=data, outcome=(feat["fam"], feat.get("shape"), cfg, sorted(set(k for k, _ in diffs))))
     seen = set()
+    astart, asize = doc.get("attrstart") or 20, doc.get("attrsize") or 20
+    if diffs and (astart, asize) != (20, 20):
+        # input-side key: which header field departs from aapt's constant, and how many attributes the element carries
+        nattr = max(len(e.get("attrs", ())) for e in axmlgen._walk(doc["root"]))
+        lk = "attr-layout:%s:attrs%s" % ("+".join(n for n, v in (("attributeStart>20", astart), ("attributeSize>20", asize)) if v != 20),
+                                         ">=2" if nattr >= 2 else "<2")
+        diffs = [(lk, "attributeStart=%d attributeSize=%d: %s" % (astart, asize, m)) for _, m in diffs[:1]]
     for k, m in diffs:
         key = k + (":" + cfg if k in ("nsmap", "print:nsmap") else "")
         if key in seen:
